@@ -108,13 +108,20 @@ def gen_case_b(rnd, tier):
            'origin': rnd.choice(('nodata', 'nodata', 'xlsx')),
            'extra': rnd.random() < 0.4}
     targets = [f'S!B{i + 1}' for i in range(n)] + (['S!C1'] if cfg['extra'] else [])
+    if rnd.random() < 0.2:
+        cfg['cse_q'] = round(rnd.uniform(0.1, 0.8), 3)
+        cfg['rows'] = [{'kind': 'cse'}] * n
+        cfg['origin'] = 'nodata'
+        targets += [f'S!D1:D{n}', f'S!D{n}']
     ops = []
     for _ in range(rnd.choice((1, 2, 4, 8))):
         if rnd.random() < 0.35 and ops:
             i = rnd.randrange(n)
             ops.append({'op': 'set', 'a': f'S!A{i + 1}', 'v': round(rnd.uniform(-5, 5), 3)})
         else:
-            op = {'op': 'eval', 'a': rnd.choice(targets), 'form': 'cell'}
+            t = rnd.choice(targets)
+            op = ({'op': 'eval', 'rng': t, 'a': t, 'form': 'range'} if ':' in t else
+                  {'op': 'eval', 'a': t, 'form': 'cell'})
             if rnd.random() < 0.4:
                 op['iterations'] = rnd.choice((1, 2, 5, 20, 100))
             if rnd.random() < 0.3:
@@ -128,6 +135,8 @@ def gen_case_b(rnd, tier):
 def matrix(cfg):
     n = cfg['n']
     a = np.zeros((n, n))
+    if cfg.get('cse_q') is not None:
+        return np.eye(n) * cfg['cse_q']
     for i, row in enumerate(cfg['rows']):
         if row['kind'] == 'sum':
             a[i, :] = row['c']
@@ -139,6 +148,24 @@ def matrix(cfg):
 def spec_b(cfg):
     n = cfg['n']
     cells = []
+    if cfg.get('cse_q') is not None:
+        # x = q*y + b as one array formula in D1:Dn, y_i = x_i in the cells B_i: the loop is
+        # closed through the array formula's range
+        q = cfg['cse_q']
+        for i in range(n):
+            cells.append({'a': f'S!A{i + 1}', 'v': cfg['b'][i]})
+        ref = f'S!D1:D{n}'
+        for i in range(n):
+            cells.append({'a': f'S!D{i + 1}', 'cse': ref, 'f': f'=B1:B{n}*{q!r}+A1:A{n}',
+                          'p': [f'S!B{j + 1}' for j in range(n)] + [f'S!A{j + 1}' for j in range(n)],
+                          'd': []})
+        for i in range(n):
+            cells.append({'a': f'S!B{i + 1}', 'f': f'=PROBE("B{i + 1}",D{i + 1})',
+                          'p': [f'S!D{i + 1}'], 'd': []})
+        if cfg.get('extra'):
+            cells.append({'a': 'S!C1', 'f': '=B1+B2', 'p': ['S!B1', 'S!B2'], 'd': []})
+        return {'sheets': ['S'], 'active': 'S', 'data_sheet': None, 'cells': cells, 'names': {},
+                'iter': cfg['iter'], 'pinned': []}
     for i in range(n):
         cells.append({'a': f'S!A{i + 1}', 'v': cfg['b'][i]})
     for i, row in enumerate(cfg['rows']):
@@ -160,6 +187,8 @@ def legalise_b(case):
     case['spec'] = spec_b(cfg)
     n = cfg['n']
     ok = {f'S!B{i + 1}' for i in range(n)} | ({'S!C1'} if cfg.get('extra') else set())
+    if cfg.get('cse_q') is not None:
+        ok |= {f'S!D1:D{n}', f'S!D{n}'}
     case['ops'] = [o for o in case.get('ops', [])
                    if (o['op'] == 'eval' and o['a'] in ok) or
                    (o['op'] == 'set' and o['a'] in {f'S!A{i + 1}' for i in range(n)})]
@@ -230,6 +259,14 @@ def run_case_b(case):
                 violate('exception', i, op, 'a number', out, exc=out['exc'])
                 break
             got = out['v']
+            tgt = op['a'][2:]
+            if ':' in tgt:
+                # the array formula's range: a column of numbers; judged through its last cell
+                if got[0] != 'arr' or any(x[0] != 'num' for x in got[1]):
+                    violate('not-a-number', i, op, 'a column of numbers', got)
+                    break
+                got = got[1][-1]
+                tgt = f'D{n}'
             if got[0] != 'num' or not isinstance(got[1], float):
                 violate('not-a-number', i, op, 'a number', got)
                 break
@@ -239,7 +276,6 @@ def run_case_b(case):
             if over:
                 violate('too-many-passes', i, op, f'<= {iterations} calls per tag', over)
                 break
-            tgt = op['a'][2:]
             if tgt.startswith('B'):
                 if tgt not in calls:
                     violate('no-pass-computed', i, op, f'PROBE({tgt}) called at least once',
@@ -269,10 +305,14 @@ def run_case_b(case):
                     break
                 if len(calls) == n:
                     bound = q / (1 - q) * tol * (1 + 1e-5) + 1e-9
-                    if tgt.startswith('B'):
+                    if tgt.startswith('B') or tgt.startswith('D'):
                         err = abs(val - xstar[int(tgt[1:]) - 1])
                     else:
                         err = abs(val - (xstar[0] + xstar[1])) / 2
+                    if cfg.get('cse_q') is not None:
+                        count('probe:cycle-through-array-formula-bound-checked')
+                        # x is one step behind y in this arrangement
+                        bound = bound / max(q, 1e-9) + tol
                     count('probe:fixed-point-bound-checked')
                     if err > bound:
                         violate('outside-fixed-point-bound', i, op,
